@@ -36,7 +36,7 @@ import (
 //	   with ErrNotReady, which is no violation - then the channel is closed
 //	F  slow strong read in flight: a strong read that takes the FSM a good while
 //	   (recursive CTE) is started; as soon as its log entry is committed but not yet
-//	   applied (commit index > FSM index) a linearizable read is sent, with a 60 s
+//	   applied (commit index > FSM index) a linearizable read is sent through Store.Query and one through Store.Request, each with a 120 s
 //	   timeout: it really has to WAIT for an entry that does not change the database.
 //	   If the strong read is through before the window is seen, that is counted
 //	   (windows_missed) and the read is an ordinary one.
@@ -56,9 +56,34 @@ import (
 const c38ReadTimeout = 3 * time.Second
 
 // the read sent while a slow strong read is being applied has to outlast that query
-const c38InFlightTimeout = 60 * time.Second
+const c38InFlightTimeout = 120 * time.Second
 
-const c38SlowSQL = `WITH RECURSIVE c(x) AS (SELECT 1 UNION ALL SELECT x+1 FROM c WHERE x < 1000000) SELECT COUNT(*) FROM c`
+// The slow strong read has to keep the FSM busy for well over rqlite's default
+// linearizable wait of 1 s: its size is calibrated once per run for about 4 s.
+var (
+	c38SlowOnce sync.Once
+	c38SlowRows = 8000000
+)
+
+func c38SlowSQL(n int) string {
+	return fmt.Sprintf(`WITH RECURSIVE c(x) AS (SELECT 1 UNION ALL SELECT x+1 FROM c WHERE x < %d) SELECT COUNT(*) FROM c`, n)
+}
+
+func c38Calibrate(s *Store) {
+	c38SlowOnce.Do(func() {
+		qr := queryRequestFromString(c38SlowSQL(2000000), false, false, false)
+		qr.Level = proto.ConsistencyLevel_NONE
+		t0 := time.Now()
+		if _, _, _, err := s.Query(context.Background(), qr); err != nil {
+			return
+		}
+		if d := time.Since(t0); d > 0 {
+			if n := int(float64(2000000) * float64(4*time.Second) / float64(d)); n > c38SlowRows {
+				c38SlowRows = n
+			}
+		}
+	})
+}
 
 var c38OpName = map[byte]string{'W': "write", 'S': "strong-read", 'L': "linearizable-read", 'J': "join", 'R': "remove", 'B': "barrier", 'N': "noop-command", 'P': "snapshot",
 	'X': "restart", 'Q': "not-ready-window", 'F': "slow-strong-read-in-flight"}
@@ -94,10 +119,11 @@ func TestVerif_C38(t *testing.T) {
 	r := kit.Start(t, "C38", "hist")
 	defer r.Finish()
 	depth := r.Pick(2, 3)
-	r.Rule(fmt.Sprintf("every history of length <=%d over {write, strong read, linearizable read, join non-voter, remove it, barrier, no-op command, snapshot, restart (fresh term), not-ready window (ready channel registered, a strong and a linearizable read refused, channel closed), slow strong read in flight (a linearizable read sent while a committed strong read is still being applied)} on a fresh real single-node Store, each followed by a linearizable read with no intervening write; every linearizable read must return without error within its 3 s timeout (60 s for the one sent while the slow strong read is in flight); reads refused with ErrNotReady inside a not-ready window are not judged. distinct = (history, outcome of each linearizable read)", depth))
+	r.Rule(fmt.Sprintf("every history of length <=%d over {write, strong read, linearizable read, join non-voter, remove it, barrier, no-op command, snapshot, restart (fresh term), not-ready window (ready channel registered, a strong and a linearizable read refused, channel closed), slow strong read in flight (a linearizable read sent while a committed strong read is still being applied)} on a fresh real single-node Store, each followed by a linearizable read with no intervening write; every linearizable read must return without error within its 3 s timeout (120 s for the two - one through Store.Query, one through Store.Request - sent while the slow strong read is in flight); reads refused with ErrNotReady inside a not-ready window are not judged. distinct = (history, outcome of each linearizable read)", depth))
 	r.Assume("single node: the leader is its own quorum and leads again after a restart; leader changes between nodes and snapshot installs on followers are the cluster part's business")
 	r.Add("windows_hit", 0)
 	r.Add("windows_missed", 0)
+	r.Add("waits_shorter_than_default_timeout", 0)
 	r.Note("raft's internal interleavings are whatever each run produced; the oracle does not depend on them")
 
 	hs := c38Histories(depth)
@@ -174,12 +200,29 @@ func c38Run(t *testing.T, r *kit.Run, h string) (retObs string, retSteps int, se
 	var joined []string
 	steps := 0
 	lastNonRead := "create-table-write"
-	linReadT := func(pos int, timeout time.Duration) {
+	type linResult struct {
+		api  string
+		lvl  proto.ConsistencyLevel
+		err  error
+		took time.Duration
+	}
+	// doLin sends one linearizable read with its own timeout set on the request
+	doLin := func(api string, timeout time.Duration) linResult {
+		t0 := time.Now()
+		if api == "Request" {
+			eqr := executeQueryRequestFromString("SELECT COUNT(*) FROM t", proto.ConsistencyLevel_LINEARIZABLE, false, false, false)
+			eqr.LinearizableTimeout = int64(timeout)
+			_, _, _, err := s.Request(context.Background(), eqr)
+			return linResult{api, eqr.Level, err, time.Since(t0)}
+		}
 		qr := queryRequestFromString("SELECT COUNT(*) FROM t", false, false, false)
 		qr.Level = proto.ConsistencyLevel_LINEARIZABLE
 		qr.LinearizableTimeout = int64(timeout)
-		t0 := time.Now()
 		_, lvl, _, err := s.Query(context.Background(), qr)
+		return linResult{api, lvl, err, time.Since(t0)}
+	}
+	judgeLin := func(pos int, timeout time.Duration, res linResult) {
+		lvl, err := res.lvl, res.err
 		steps++
 		if err == nil {
 			obs = append(obs, "ok:"+lvl.String())
@@ -198,11 +241,11 @@ func c38Run(t *testing.T, r *kit.Run, h string) (retObs string, retSteps int, se
 			kind = strings.TrimPrefix(le.Type.String(), "Log")
 		}
 		r.Violation(fmt.Sprintf("C38:linearizable-read-fails:%s:commit-index-entry-is-%s", cls, kind),
-			fmt.Sprintf("history %s then linearizable read #%d (last operation: %s): %v after %v on a healthy single-node leader (commit index %d is a %s entry, fsm index %d)",
-				c38Spell(h), pos, lastNonRead, err, time.Since(t0).Round(time.Millisecond), ci, kind, s.fsmIdx.Load()),
+			fmt.Sprintf("history %s then linearizable read #%d through Store.%s with a %v timeout (last operation: %s): %v after %v on a healthy single-node leader (commit index %d is a %s entry, fsm index %d)",
+				c38Spell(h), pos, res.api, timeout, lastNonRead, err, res.took.Round(time.Millisecond), ci, kind, s.fsmIdx.Load()),
 			map[string]any{"history": h, "then": "L"})
 	}
-	linRead := func(pos int) { linReadT(pos, c38ReadTimeout) }
+	linRead := func(pos int) { judgeLin(pos, c38ReadTimeout, doLin("Query", c38ReadTimeout)) }
 	for i := 0; i < len(h); i++ {
 		op := h[i]
 		steps++
@@ -265,10 +308,11 @@ func c38Run(t *testing.T, r *kit.Run, h string) (retObs string, retSteps int, se
 			c38Poll(h, "store ready after the ready channel was closed", s.Ready)
 			obs = append(obs, "Q:"+strings.Join(got, "/"))
 		case 'F':
+			c38Calibrate(s)
 			c0 := s.raft.CommitIndex()
 			done := make(chan error, 1)
 			go func() {
-				qr := queryRequestFromString(c38SlowSQL, false, false, false)
+				qr := queryRequestFromString(c38SlowSQL(c38SlowRows), false, false, false)
 				qr.Level = proto.ConsistencyLevel_STRONG
 				_, _, _, err := s.Query(context.Background(), qr)
 				done <- err
@@ -294,9 +338,26 @@ func c38Run(t *testing.T, r *kit.Run, h string) (retObs string, retSteps int, se
 			} else {
 				r.Add("windows_hit", 1)
 			}
-			// the read under test: sent while the FSM is still applying the strong read
+			// the reads under test, one through each entry point, both sent while the FSM is still
+			// applying the strong read, each with its own generous timeout on the request
 			steps++
-			linReadT(i, c38InFlightTimeout)
+			inFlightSince := time.Now()
+			resCh := make(chan linResult, 2)
+			for _, api := range []string{"Query", "Request"} {
+				go func(api string) { resCh <- doLin(api, c38InFlightTimeout) }(api)
+			}
+			byAPI := map[string]linResult{}
+			for k := 0; k < 2; k++ {
+				res := <-resCh
+				byAPI[res.api] = res
+			}
+			if !finished && time.Since(inFlightSince) < 1500*time.Millisecond && byAPI["Query"].err == nil && byAPI["Request"].err == nil {
+				// the strong read was through sooner than rqlite's default wait of 1 s: the reads had to
+				// wait, but not longer than the default would have allowed
+				r.Add("waits_shorter_than_default_timeout", 1)
+			}
+			judgeLin(i, c38InFlightTimeout, byAPI["Query"])
+			judgeLin(i, c38InFlightTimeout, byAPI["Request"])
 			if !finished {
 				select {
 				case err := <-done:
